@@ -10,8 +10,8 @@ unavailable static tie — never a violation, never a crash):
   atoms        the parameters | 0 | 1 | self.epsilon | self.delta | self.slack | self.__min_epsilon |
                the two names bound by `a, b = self.total(…)`
   guards       comparisons `< <= > >= ==` of atoms (chains allowed), `X == float("inf")`, `and` / `or` / `not`,
-               `P >= Q` / `P <= Q` with P, Q budgets (`Budget(self.epsilon, self.delta)`, `self.total(…)`, a local bound
-               to one) — expanded with the CURRENT body of `Budget.__ge__` / `Budget.__le__`
+               `P >= Q` / `P <= Q` / `P > Q` / `P < Q` with P, Q budgets (`Budget(self.epsilon, self.delta)`, `self.total(…)`, a local bound
+               to one) — expanded with the CURRENT bodies of `Budget.__ge__` / `__le__` / `__gt__` / `__lt__` (tuple `__eq__`)
   statements   `check_epsilon_delta(a, b[, allow_zero=const])` | `if G: return True|self` | `if G: raise X(…)` |
                `<local> = self.spent_budget + [(a, b)]` | `[x | a, b] = self.total([spent_budget=…][, slack=…])` |
                `raise X(…)` (X = ValueError | BudgetError | TypeError) | `self.check(a, b)` |
@@ -48,17 +48,22 @@ def _is_inf(e):
     return False
 
 
-def _cond(e, atom, pair_cmp, where):
-    """guard -> Cond term.  `atom(expr)` -> Atom term or raises; `pair_cmp(l, op, r)` -> Cond term or None"""
+def _cond(e, atom, pair_cmp, where, call=None):
+    """guard -> Cond term.  `atom(expr)` -> Atom term or raises; `pair_cmp(l, op, r)` -> Cond term or None;
+    `call(expr)` -> Cond term or None for a call used as a truth value"""
+    if isinstance(e, ast.Call) and call is not None:
+        c = call(e)
+        if c is not None:
+            return c
     if isinstance(e, ast.BoolOp):
-        parts = [_cond(v, atom, pair_cmp, where) for v in e.values]
+        parts = [_cond(v, atom, pair_cmp, where, call) for v in e.values]
         k = ".and" if isinstance(e.op, ast.And) else ".or"
         t = parts[-1]
         for p in reversed(parts[:-1]):
             t = f"({k} {p} {t})"
         return t
     if isinstance(e, ast.UnaryOp) and isinstance(e.op, ast.Not):
-        return f"(.not {_cond(e.operand, atom, pair_cmp, where)})"
+        return f"(.not {_cond(e.operand, atom, pair_cmp, where, call)})"
     if isinstance(e, ast.Compare):
         links = []
         left = e.left
@@ -125,10 +130,13 @@ class BudgetOrder:
             raise TranslatorError("Budget is no longer a tuple subclass")
         self.fns = {n.name: n for n in cls.body if isinstance(n, ast.FunctionDef)}
 
-    def expand(self, method, p, q):
+    def expand(self, method, p, q, depth=0):
         """Cond term of `P.<method>(Q)` for the pairs p = (p0, p1), q = (q0, q1) of Atom terms"""
         fn = self.fns.get(method)
-        if fn is None:
+        if fn is None and method == "__eq__":
+            # not overridden: tuple equality, component by component
+            return f"(.and (.eq {p[0]} {q[0]}) (.eq {p[1]} {q[1]}))"
+        if fn is None or depth > 3:
             raise TranslatorError(f"Budget.{method} not found")
         args = [a.arg for a in fn.args.args]
         if len(args) != 2 or fn.decorator_list:
@@ -142,15 +150,24 @@ class BudgetOrder:
                     and not isinstance(e.slice.value, bool)):
                 return env[e.value.id][e.slice.value]
             raise TranslatorError(f"{where}: `{ast.unparse(e)}`")
+
+        def call(e):
+            # `self.__ge__(other)` etc. inside another comparison method
+            f = e.func
+            if (isinstance(f, ast.Attribute) and isinstance(f.value, ast.Name) and f.value.id in env and len(e.args) == 1
+                    and not e.keywords and isinstance(e.args[0], ast.Name) and e.args[0].id in env
+                    and f.attr in ("__ge__", "__le__", "__gt__", "__lt__", "__eq__")):
+                return self.expand(f.attr, env[f.value.id], env[e.args[0].id], depth + 1)
+            return None
         body = _strip_doc(fn.body)
         # `if G: return True` `return False`   |   `return G`
         if (len(body) == 2 and isinstance(body[0], ast.If) and not body[0].orelse and len(body[0].body) == 1
                 and isinstance(body[0].body[0], ast.Return) and isinstance(body[0].body[0].value, ast.Constant)
                 and body[0].body[0].value.value is True and isinstance(body[1], ast.Return)
                 and isinstance(body[1].value, ast.Constant) and body[1].value.value is False):
-            return _cond(body[0].test, atom, None, where)
+            return _cond(body[0].test, atom, None, where, call)
         if len(body) == 1 and isinstance(body[0], ast.Return) and body[0].value is not None:
-            return _cond(body[0].value, atom, None, where)
+            return _cond(body[0].value, atom, None, where, call)
         raise TranslatorError(f"{where}: body has a new shape")
 
 
@@ -270,9 +287,9 @@ class _Body:
                 return None
             if pl is None or pr is None:
                 self.fail(f"budget compared with a non-budget in `{ast.unparse(test)}`")
-            m = {ast.GtE: "__ge__", ast.LtE: "__le__"}.get(type(op))
+            m = {ast.GtE: "__ge__", ast.LtE: "__le__", ast.Gt: "__gt__", ast.Lt: "__lt__"}.get(type(op))
             if m is None:
-                self.fail(f"budget comparison `{type(op).__name__}` (only >= and <= are understood)")
+                self.fail(f"budget comparison `{type(op).__name__}` (only >=, <=, >, < are understood)")
             return self.order.expand(m, pl, pr)
         c = _cond(test, self.atom, pair_cmp, self.where)
         return pre, c
